@@ -159,6 +159,25 @@ def case_fi(ctx, spec):
             want = [c.get("mult", 1) for nd, c in _kids(base["tree"]) if c["sec"] == m.name and nd["name"] == m.parent.name]
             if want and float(m.multiplier) != float(want[0]):
                 raise Violation("%s (%s) was constructed with multiplier %r but runs with %r" % (m.full_name, type(m).__name__, want[0], m.multiplier), signature="fi:multiplier-lost")
+    # the carry entering the decomposition is recorded by the securities themselves: it has to be what the input tables say
+    for m in s.members:
+        if isinstance(m, bt.core.CouponPayingSecurity):
+            pos = np.asarray(m.positions, dtype=float)[1:]
+            fr = base["frames"]
+            c = np.array([0.0 if x is None else x for x in fr["coupons"]["cols"][m.name]], dtype=float)
+            hl = (fr.get("cost_long") or {}).get("cols", {}).get(m.name)
+            hs = (fr.get("cost_short") or {}).get("cols", {}).get(m.name)
+            if (fr.get("cost_long") or {}).get("dates") or (fr.get("cost_short") or {}).get("dates"):
+                continue  # a table with its own dates is refused at setup (C10)
+            hl = np.zeros(len(pos)) if hl is None else np.array([0.0 if x is None else x for x in hl], dtype=float)
+            hs = np.zeros(len(pos)) if hs is None else np.array([0.0 if x is None else x for x in hs], dtype=float)
+            n_ = min(len(pos), len(c))
+            exph = np.where(pos[:n_] > 0, pos[:n_] * hl[:n_], np.where(pos[:n_] < 0, -pos[:n_] * hs[:n_], 0.0))
+            goth = np.asarray(m.holding_costs, dtype=float)[1 : n_ + 1]
+            gotc = np.asarray(m.coupons, dtype=float)[1 : n_ + 1]
+            if not np.allclose(goth, exph, rtol=1e-12, atol=1e-9) or not np.allclose(gotc, pos[:n_] * c[:n_], rtol=1e-12, atol=1e-9):
+                i = int(np.argmax(~(np.isclose(goth, exph, rtol=1e-12, atol=1e-9) & np.isclose(gotc, pos[:n_] * c[:n_], rtol=1e-12, atol=1e-9))))
+                raise Violation("%s: carry recorded on row %d is coupon %r less holding cost %r; the input tables say %r less %r for position %r" % (m.full_name, i + 1, gotc[i], goth[i], pos[i] * c[i], exph[i], pos[i]), signature="fi:carry-vs-inputs")
     attribution(bt, s, 1e6, tag="fi")
     carry = any(isinstance(m, bt.core.CouponPayingSecurity) and ((np.asarray(m.coupons, dtype=float) != 0) | (np.asarray(m.holding_costs, dtype=float) != 0)).any() for m in s.members)
     return {"nontrivial": bool(carry), "labels": ["carry"] if carry else []}
